@@ -78,7 +78,10 @@ def run_pure(ctx):
         checks.append((f"convert_uri {u!r}", f"String.eqb (convert_uri {coq.s(u)}) {coq.s(got)}"))
         checks.append((f"wf_uri {u!r}", f"wf_uri {coq.s(u)}"))
     for r, got in zip(rules, out["rules"]):
-        obs = "None" if got is None else f"(Some (mkBinding {coq.s(got[0])} {coq.s(got[1])} {coq.opt(got[2])}))"
+        obs = "None" if got is None else "" if isinstance(got, dict) else f"(Some (mkBinding {coq.s(got[0])} {coq.s(got[1])} {coq.opt(got[2])}))"
+        if isinstance(got, dict):
+            ctx.violation(f"HttpRule.try_parse_http_rule raised {got['error']} on rule {r}", {"rule": r}, None)
+            obs = f"(Some (mkBinding {coq.s('raised')} {coq.s(got['error'])} None))"
         checks.append((f"try_parse {r}", f"option_eqb binding_eqb (try_parse {A.rule_term(r)}) {obs}"))
     for n, got in zip(names, out["camel"]):
         checks.append((f"camel_case {n!r}", f"String.eqb (camel_case {coq.s(n)}) {coq.s(got)}"))
@@ -396,12 +399,15 @@ def evaluate(ctx, jobs, results, tag):
     reserved = set(t0.reserved_names())
     checks, defs, t2cases = [], [], {}
     seen_defs = set()
-    pins_bad = []
+    pins_bad, no_counterpart, gen_errors = [], [], []
     for job, res in zip(jobs, results):
         req, idx, numeric = job["req"], job["idx"], job["numeric"]
         base_case = {"api_index": idx, "numeric": numeric, "request_b64": apigen.req_b64(req)}
         if res["error"]:
-            ctx.oblige(f"library #{idx} numeric={numeric}: generate, read, drive", False, res["error"], "T1")
+            gen_errors.append(f"#{idx} numeric={numeric}: {res['error']}")
+            if res["error"].startswith("generation failed") or res["error"].startswith("driving"):
+                ctx.violation(f"API #{idx} (rest-numeric-enums={'on' if numeric else 'off'}): {res['error'][:400]}",
+                              {**base_case, "methods": [(m["name"], m["rule"], m["more"]) for m in A.schema_of(req)]}, None)
             continue
         d = dyn.Dyn(req)
         schema = {ms["name"]: ms for ms in A.schema_of(req)}
@@ -498,7 +504,7 @@ def evaluate(ctx, jobs, results, tag):
             obs = observed_term(c)
             lbl = f"T2 #{idx}{'n' if numeric else ''} {c['method']}[{ci}]"
             if obs is None:
-                ctx.oblige(f"{lbl}: observation has a counterpart in the model", False, f"{c['error'] or len(c['http'])}")
+                no_counterpart.append(f"{lbl}: {str(c['error'] or len(c['http']))[:200]}")
                 t2cases[lbl] = case
                 continue
             checks.append((lbl, f"outcome_eqb (run {coq.b(numeric)} m_{idx}_{c['method']} {A.req_term(A.leaves_of(msg))}) {obs}"))
@@ -512,9 +518,11 @@ def evaluate(ctx, jobs, results, tag):
     ctx.oblige(f"T1 [{tag}] emitted _get_http_options / __REQUIRED_FIELDS_DEFAULT_VALUES / body and $alt literals / NotImplementedError branches "
                f"= model output ({n1} comparisons) and the call-path shape pins", not t1f and not errors and n1 > 0, "; ".join((t1f + errors)[:8]), "T1")
     ctx.oblige(f"T2 [{tag}] emitted REST transport = model run on {n2} driven calls (verb, path, query multiset, body JSON, errors)",
-               not t2f and not errors, "; ".join(t2f[:8]))
+               not t2f and not errors and not no_counterpart, "; ".join((t2f + no_counterpart)[:8]))
     ctx.oblige(f"[{tag}] generated methods satisfy the model's hypotheses (wf_uri, names_agree)", not hyp, "; ".join(hyp[:8]))
-    dis = [t2cases[f] for f in t2f if f in t2cases]
+    ctx.oblige(f"[{tag}] every library is generated, read with ast (fail-closed) and driven ({len(jobs)} libraries)", not gen_errors,
+               "; ".join(gen_errors[:6]), "T1")
+    dis = [t2cases[f] for f in t2f if f in t2cases] + [t2cases[x.split(':')[0]] for x in no_counterpart if x.split(':')[0] in t2cases]
     ctx.notes.setdefault("t2_disagreements", []).extend(dis[:10])
     ctx.notes.setdefault("t1_disagreements", []).extend(t1f[:10])
     return dis, t1f
@@ -630,12 +638,19 @@ def run_witnesses(ctx):
 
 # ------------------------------------------------------------------ entry points
 def run(ctx):
-    run_pure(ctx)
-    run_contract(ctx, ctx.n(6, 60), ctx.n(6, 10))
-    run_witnesses(ctx)
-    jobs = make_jobs(ctx, ctx.n(7, 150), ctx.n(5, 8))
-    results = gen.pmap(run_library, jobs)
-    evaluate(ctx, jobs, results, "e2e")
+    import time
+    t = [time.time()]
+
+    def lap(name):
+        t.append(time.time())
+        ctx.notes.setdefault("stage_seconds", {})[name] = round(t[-1] - t[-2], 1)
+
+    run_pure(ctx); lap("pure")
+    run_contract(ctx, ctx.n(4, 60), ctx.n(6, 10)); lap("contract")
+    run_witnesses(ctx); lap("witnesses")
+    jobs = make_jobs(ctx, ctx.n(6, 150), ctx.n(6, 8))
+    results = gen.pmap(run_library, jobs); lap("generate+drive")
+    evaluate(ctx, jobs, results, "e2e"); lap("evaluate")
     ctx.notes["libraries"] = len(jobs)
 
 
@@ -659,16 +674,23 @@ def replay(ctx, rep):
     if "request_b64" not in c:
         cases = (rep.get("notes") or {}).get("t2_disagreements") or []
         if not cases:
+            if "rule" in c:
+                run_pure(ctx)
+                return
             return run(ctx)
         c = cases[0]
     req = apigen.req_from_b64(c["request_b64"])
     job = {"idx": c.get("api_index", 0), "numeric": bool(c.get("numeric")), "req": req, "ncalls": 1, "families": ["normal"],
-           "fixed": {c["method"]: [c["msg_b64"]]}, "seed_tag": "replay"}
+           "fixed": {c["method"]: [c["msg_b64"]]} if "method" in c else {}, "seed_tag": "replay"}
     results = gen.pmap(run_library, [job])
-    # keep only the recorded call
+    for res in results:               # keep only the recorded call
+        if "method" in c:
+            res["calls"] = [x for x in res["calls"] if x["method"] == c["method"]]
+    evaluate(ctx, [job], results, "replay")
     for res in results:
-        res["calls"] = [x for x in res["calls"] if x["method"] == c["method"]]
-    dis, t1f = evaluate(ctx, [job], results, "replay")
-    for res in results:
-        for x in res["calls"]:
+        if res["error"]:
+            print(f"replayed API: {res['error'][:300]}")
+        for x in res["calls"] if "method" in c else []:
             print(f"replayed {c['method']}: ok={x['ok']} http={x['http']} error={x['error']}")
+    for v in ctx.violations:
+        print(f"  oracle: [{v['signature']}] {v['what'][:300]}")
